@@ -566,6 +566,10 @@ func (f *fsm) build(op hx.Op) *proto.RaftLog {
 			}
 			streams = []string{pick(existing, op.Arg(2, 0))}
 		}
+		if op.Arg(3, 0)%6 == 5 {
+			// a request that names a stream twice (nothing in the client or the API removes duplicates)
+			streams = append(streams, streams[int(op.Arg(1, 0))%len(streams)])
+		}
 		if md.GetConsumerGroup(gid) == nil {
 			l := &proto.RaftLog{Op: proto.Op_CREATE_CONSUMER_GROUP, CreateConsumerGroupOp: &proto.CreateConsumerGroupOp{ConsumerGroup: &proto.ConsumerGroup{
 				Id: gid, Coordinator: pick(fsmBrokers, op.Arg(3, 0)), Members: []*proto.Consumer{{Id: cid, Streams: streams}}}}}
